@@ -280,7 +280,8 @@ ENTRY = {
     'sample.sample_rand': [dict(n='shape', m='int:m', seed='seed')],
     'sample.sample_rand_poi': [dict(a='fvec', b='fvec', m='int:m',
                                     seed='seed')],
-    'sample.sample_tt': [dict(n='shape', r='int:r', seed='seed')],
+    'sample.sample_tt': [dict(n='shape', r='int:r', seed='seed'),
+                         dict(n='ashape', r='int:r', seed='seed')],
     'sample_func.sample_func': [dict(A='tt', seed='seed'),
                                 dict(A='tt', seed='seed',
                                      cores_are_prepared=L(True))],
@@ -332,6 +333,8 @@ ENTRY = {
                                 dict(Y='tt', is_eigh=L(False)),
                                 dict(Y='tt', orth=L(False)),
                                 dict(Y='tt', e='rel', r='npint:rmax'),
+                                # accuracy given as a 0-d array
+                                dict(Y='tt', e='arr0'),
                                 dict(Y='tt1', e='rel', r='int:rmax'),
                                 dict(Y='tt1', e='rel', r='int:rmax',
                                      is_eigh=L(False))],
@@ -428,6 +431,14 @@ def build(spec, name, d, label=True):
                    label=label)
     if spec == 'shape':
         return shape_list(name, d, prefix=name + '.', label=label)
+    if spec == 'ashape':
+        # the same mode sizes handed over as an integer ndarray (the
+        # documented alternative to a list)
+        a = ARR((Poly.const(d),), 'i')
+        a.items = [INT(sym('%s.%d' % (name, k))) for k in range(d)]
+        if label:
+            a.org = frozenset({('P', name)})
+        return a
     if spec == 'ranks':
         items = [INT(1)] + [INT(sym('%s.r%d' % (name, k)))
                             for k in range(1, d)] + [INT(1)]
@@ -452,6 +463,13 @@ def build(spec, name, d, label=True):
         from fractions import Fraction as _F
         from .poly import Lin as _L
         return FLOAT(unit=_F(1), lg=_L(0))  # absolute accuracy, in data units
+    if spec == 'arr0':
+        # a number handed over as a 0-d ndarray (np.array(1e-3), the result
+        # of np.tensordot of two vectors): a MUTABLE object of the caller
+        a0 = ARR((), 'f')
+        if label:
+            a0.org = frozenset({('P', name)})
+        return a0
     if spec.startswith('num:'):
         return num(spec[4:])
     if spec.startswith('int:'):
@@ -535,4 +553,8 @@ DEFAULT_SUMMARY = {'utils._maxvol': maxvol_summary}
 EXPAND_IN = {'transformation.orthogonalize_left',
              'transformation.orthogonalize_right',
              'transformation.orthogonalize', 'transformation.truncate',
-             'svd.svd'}
+             'svd.svd',
+             # the samplers: ranks and mode sizes are free inputs; a carried
+             # interface whose bond is "this rank on one path, that rank on
+             # another" does not fit the next core
+             'sample.sample', 'sample.sample_square'}
